@@ -53,8 +53,26 @@ ASSUMPTIONS = [
     'thread schedules are whatever the OS picks (one committed regression case forces a two-thread rendezvous in WMSClient.retrieve)',
 ]
 
+class _ErrorCounter(logging.Handler):
+    """Counts the exceptions MapProxy logs while serving generated requests (internal errors -> HTTP 500).  They
+    are reported as by-catch in the evidence notes; they never enter a C17 verdict."""
+
+    def __init__(self):
+        logging.Handler.__init__(self)
+        self.seen = []
+
+    def emit(self, record):
+        if record.exc_info and record.exc_info[1] is not None:
+            self.seen.append(type(record.exc_info[1]).__name__)
+
+    def drain(self):
+        out, self.seen = self.seen, []
+        return out
+
+
 _mplog = logging.getLogger('mapproxy')
-_mplog.addHandler(logging.NullHandler())
+_errors = _ErrorCounter()
+_mplog.addHandler(_errors)
 _mplog.propagate = False   # request-level error logging of the code under test is not part of the verdict
 
 K_DEG = 6378137.0 * 2 * math.pi / 360.0
@@ -1283,6 +1301,8 @@ def run_case(case, stats, record=True, exclude=True):
                     classes.append('status:%d' % resp.status_int)
                     if orphans:
                         stats.notes['upstream-call-outside-get_map'] += len(orphans)
+                    for name in _errors.drain():
+                        stats.notes['by-catch:mapproxy-logged-' + name] += 1
                     stats.case(key=sub, nontrivial=bool(nt), classes=classes + ['nt:' + n for n in sorted(nt)],
                                sample={'request': req, 'upstream': [c.url for c in up.calls()][:4]})
                 violations.extend(vs)
